@@ -211,10 +211,10 @@ fn close_number_ordering(rep: &mut Report, args: &Args) {
 /// reference evaluator (implementations switch strategy at size thresholds: inline
 /// buffers, chunked copies, pre-sized allocations).
 fn size_sweep(rep: &mut Report, args: &Args, ev: &Evaluator, strict: &Opts) {
-    const EXPRS: [&str; 26] = [
+    const EXPRS: [&str; 34] = [
         "xs[*]", "xs[]", "xs[?@ >= `0`]", "xs[?@ > `5`]", "recs[*].id", "recs[?k == `1`].id", "recs[].v[]", "xs[::2]", "xs[::-1]", "xs[1:-1]", "xs[-1]", "xs[0]",
         "recs[*].v[0]", "recs[*].[id, k]", "recs[*].{a: id}", "nest[][]", "xs | [0]", "recs[-1].id", "xs[*] | [-1]", "recs[?v[0] == id].k", "xs == xs", "recs[*].v | [][]",
-        "xs[-3:]", "xs[:3]", "recs[?k != `0`] | [-1].id", "nest[*][*] | [][] | [-1]",
+        "xs[-3:]", "xs[:3]", "xs[-2]", "xs[-4]", "xs[3]", "recs[-2].id", "nest[-1][-1][-1]", "xs[-1:]", "xs[:-1]", "recs[*].v[-1]", "recs[?k != `0`] | [-1].id", "nest[*][*] | [][] | [-1]",
     ];
     let mut sizes: Vec<usize> = (0..=130).collect();
     sizes.extend_from_slice(&[255, 256, 257, 511, 512, 513, 1000, 1023, 1024, 1025]);
@@ -248,6 +248,29 @@ fn size_sweep(rep: &mut Report, args: &Args, ev: &Evaluator, strict: &Opts) {
                 (Ok(x), Ok(Ok(g))) => value_of(g).map_or(false, |g| refimpl::json::val_eq(x, &g, 0.0)),
                 _ => false,
             };
+            // the same form applied to a LITERAL subject (what a parser may be tempted to fold ahead of time)
+            if n <= 24 && ok {
+                for name in ["xs", "recs", "nest"] {
+                    if text.starts_with(name) && !text[name.len()..].contains(name) && !text.contains("xs == xs") {
+                        let lit = format!("`{}`{}", doc[name].to_string().replace('`', "\\`"), &text[name.len()..]);
+                        rep.evaluations += 1;
+                        let got2 = guarded(|| jmespath::compile(&lit).and_then(|e| e.search(&input)));
+                        let ok2 = match (&want, &got2) {
+                            (Ok(x), Ok(Ok(g))) => value_of(g).map_or(false, |g| refimpl::json::val_eq(x, &g, 0.0)),
+                            _ => false,
+                        };
+                        if ok2 {
+                            rep.count("size_sweep_literal_subject_ok");
+                        } else {
+                            rep.violation(
+                                "C01/mismatch/literal-subject",
+                                json!({"expression": lit.chars().take(300).collect::<String>(), "array_length": n, "expected": format!("{:?}", want.as_ref().map(|v| v.to_string().chars().take(200).collect::<String>()).map_err(|e| e.class())),
+                                       "got": format!("{:?}", got2.map(|r| r.map(|v| v.to_string().chars().take(200).collect::<String>()).map_err(|e| e.to_string())))}),
+                            );
+                        }
+                    }
+                }
+            }
             if ok {
                 rep.count("size_sweep_ok");
                 if n > 1 {
